@@ -1120,11 +1120,13 @@ func callBuiltin(caller *frame, callpos token.Pos, fn *ssa.Builtin, args []value
 		}
 		if len(arg0)+len(src) <= cap(arg0) {
 			// in-place: log the overwritten spare capacity
-			if i.logging {
-				full := arg0[:len(arg0)+len(src)]
-				for k := len(arg0); k < len(full); k++ {
+			full := arg0[:len(arg0)+len(src)]
+			for k := len(arg0); k < len(full); k++ {
+				if i.logging {
 					i.logStore(&full[k])
 				}
+				// a store into the shared backing array: visible to the race check
+				i.raceAccess(caller, &full[k], true)
 			}
 			return append(arg0, src...)
 		}
